@@ -374,7 +374,7 @@ META = {
     'level_note': 'Trusted: pyvc engine; lower() is an ASCII character-wise homomorphism (uninterpreted + axioms in proofs, '
                   'interpreted for strings of length <= 2 in counterexample search); hash(str) an arbitrary function. '
                   'Unverified and named: item-name producers of item_factory.py, SchedulerConfig.match_item_keys (lower-cases '
-                  'both arguments first, by reading), SeparateModesKernel, the end-to-end "same generated code up to case".',
+                  'both arguments first, by reading), SeparateModesKernel, the end-to-end "same generated code up to case". Bounded, never counted as proved: one 4-file project (type-bound procedure, generic interface, module function, USE ... ONLY, block / ignore / role configuration entries) in 9 case-permuted spellings against the lower-case run (bounded/C23_project.py): item kinds, names, flags, edges, applications with targets and order along edges agree up to case.',
     'trusted_base': ['pyvc engine', 'lower(): ASCII homomorphism', 'hash(str): arbitrary function of the string'],
     'assumptions': ['item names handed to the transformations are canonical (lower case), as produced by the item factory',
                     'termination not proved'],
